@@ -53,6 +53,14 @@ pub fn filename_navigate(
 {
 	if is_std_path(relative)
 	{
+		if relative
+			.split(|c| c == '/' || c == '\\')
+			.any(|s| s == "..")
+		{
+			report.error_span("cannot navigate out of project directory", span);
+			return Err(());
+		}
+
 		return Ok(relative.to_string());
 	}
 
